@@ -2,7 +2,7 @@ INIT Init
 NEXT Next
 CONSTANTS
   Schemes = {"ill", "filt", "und", "pln", "srr"}
-  LibChoice = "repl"
+  LibChoice = "repl3"
   NLanes = 1
   NChunks = 1
   MaxFiles = 2
